@@ -203,7 +203,16 @@ def l3_witness(pid, fails, repo):
     out = {'found': False, 'program': prog}
     if not prog:
         return out
-    path = os.path.join(os.path.dirname(os.path.dirname(os.path.abspath(__file__))), prog)
+    path = l3run.PATHS.get(prog) or os.path.join(os.path.dirname(os.path.dirname(os.path.abspath(__file__))), prog)
+    if prog.startswith('generated:') and not os.path.exists(path):
+        # regenerate the program from its seed: generated:seed<S>/gNNN/main.ext
+        import re as _re
+        from .l3 import gen as _gen
+        from .core import scratch as _scratch
+        mm = _re.match(r'generated:seed(\d+)/g(\d+)/(.+)', prog)
+        root = os.path.join(_scratch(), 'regen')
+        ps = _gen.generate(root, int(mm.group(1)), int(mm.group(2)) + 1)
+        path = ps[int(mm.group(2))]
     g = l3gen.generate([path], repo)[path]
     out['generator_status'] = g['status']
     if g['status'] != 'OK':
